@@ -55,10 +55,12 @@ def lines_for(mode):
     return _lines_cache[mode]
 
 
-def current_M():
+def current_M(upper=False):
+    """Late modules imported so far: the completed ones, with upper=True also those being imported right now."""
     from sim.pool import catalog as C
 
-    return tuple(k for k, m in C.LATE.items() if m in sys.modules)
+    have = core.LATE_DONE | (core.LATE_BUSY if upper else set())
+    return tuple(k for k in C.LATE if k in have)
 
 
 # ---------------------------------------------------------------- generation
@@ -509,6 +511,9 @@ def run_spec(spec, R, timeout=20.0):
     )
 
     S.install_sim_locks(sch)
+    from sim.pool import catalog as _C
+
+    core.LATE_LOCKS = {k: S.SimLock(sch, reentrant=True) for k in _C.LATE}
     env = O.Env()
     viol = []
     results = []  # (thread, index, opname, record, m0, m1)
@@ -540,7 +545,7 @@ def run_spec(spec, R, timeout=20.0):
             return
         m0 = current_M()
         rec = O.execute(byname[name], the_env)
-        m1 = current_M()
+        m1 = current_M(upper=True)
         stats["ops"] += 1
         results.append((who, idx, name, rec, m0, m1))
 
@@ -577,7 +582,7 @@ def run_spec(spec, R, timeout=20.0):
         sch.suppress += 1
         try:
             probe_stats["find_types_calls"] += 1
-            if m0 == m1:
+            if m0 == m1 and not core.LATE_BUSY:
                 ctx = ref_ctx.get(m1)
                 if ctx is None:
                     ctx = ref_ctx[m1] = XmlContext()
@@ -641,6 +646,15 @@ def run_spec(spec, R, timeout=20.0):
         for who, idx, name, rec, m0, m1 in results:
             check_record(who, idx, name, rec, m0, m1)
     trace = [list(x) for x in sch.trace]
+    # A module body was pre-empted between two of its statements in this run. What calls about the late
+    # classes or class-less lookups observe then is marked: the type index built meanwhile is stamped as
+    # current and stays incomplete (a recorded finding, see known_findings.json); everything else keeps its signature.
+    if any(str(loc).startswith("<coop>import:") for _, _, loc, _ in sch.trace):
+        for v in viol:
+            op = byname.get(v.get("op", ""))
+            late = (op is not None and (op.needs or op.group in ("noclass", "ctx"))) or "late" in str(v.get("qname", ""))
+            if late and v["sig"][0] in ("result", "index"):
+                v["sig"] = ["import-window"] + list(v["sig"])
     out = {
         "seed": seed,
         "viol": viol,
